@@ -190,13 +190,17 @@ func genBinding(rng *hk.Rand, status int) *progSpec {
 	}
 	if rng.Chance(15) {
 		p.Transformer = true
-		if rng.Chance(50) && t.B.Body != "" {
+		if rng.Chance(60) && t.B.Body != "" {
 			t.B.ReadErr = 800
+			t.B.ViaTf = rng.Bool() // raised by the transformer itself - or by the reader, with the transformer installed
 		}
+	}
+	if rng.Chance(6) && t.B.Body != "" && t.B.ReadErr == 0 {
+		t.B.Cut = hk.Pick(rng, []string{"length", "chunked"})
 	}
 	if p.AutoRead == 0 && rng.Chance(12) {
 		p.Save = true
-		if rng.Chance(25) && t.B.Body != "" && t.B.ReadErr == 0 {
+		if rng.Chance(25) && t.B.Body != "" && t.B.ReadErr == 0 && t.B.Cut == "" {
 			t.B.WriteErr = 850
 		}
 	}
@@ -355,6 +359,11 @@ func genPipeline(rng *hk.Rand) *progSpec {
 		}
 		slots = append(slots, func() { at.T = toutSpec{Fail: tg.next()} })
 		slots = append(slots, func() { at.T.B.ReadErr = tg.next() })
+		slots = append(slots, func() {
+			if at.T.Fail == 0 && at.T.B.Body != "" {
+				at.T.B.Cut = hk.Pick(rng, []string{"length", "chunked"})
+			}
+		})
 		slots = append(slots, func() { // unmarshal failure
 			at.T = toutSpec{Status: hk.Pick(rng, []int{200, 201, 400, 500}), B: bodySpec{CT: "application/json", Body: `{"a":`}}
 		})
@@ -383,7 +392,7 @@ func genPipeline(rng *hk.Rand) *progSpec {
 	if rng.Chance(12) && p.AutoRead == 0 {
 		p.Save = true
 		for a := range p.Attempts {
-			if rng.Chance(20) && p.Attempts[a].T.B.Body != "" && p.Attempts[a].T.B.ReadErr == 0 {
+			if rng.Chance(20) && p.Attempts[a].T.B.Body != "" && p.Attempts[a].T.B.ReadErr == 0 && p.Attempts[a].T.B.Cut == "" {
 				p.Attempts[a].T.B.WriteErr = tg.next()
 			}
 		}
@@ -415,6 +424,7 @@ func genPipeline(rng *hk.Rand) *progSpec {
 			b := &p.Attempts[a].T.B
 			if b.ReadErr != 0 {
 				b.Body += strings.Repeat("\t", a+1)
+				b.ViaTf = rng.Bool()
 			}
 			if seen[b.Body] && b.ReadErr == 0 {
 				b.Body += strings.Repeat("\n", a+1)
@@ -592,6 +602,11 @@ func runC18(r *hk.Run) {
 		} else {
 			p = genBinding(rng, genStatus(rng))
 		}
+		if d, _ := digestOf(p.Attempts[0]); d == nil && i%3 == 0 && len(p.Attempts) == 1 && p.Attempts[0].T.B.Body != "" && p.Attempts[0].T.B.ReadErr == 0 && p.Attempts[0].T.Status >= 200 {
+			p.Attempts[0].T.B.Cut = hk.Pick(rng, []string{"length", "chunked"}) // the body is cut on the wire
+			p.Transformer = p.Transformer || rng.Bool()
+			p.Attempts[0].T.B.WriteErr = 0
+		}
 		if !realisable(p) {
 			continue
 		}
@@ -608,6 +623,9 @@ func realisable(p *progSpec) bool {
 	ok := func(t toutSpec) bool {
 		if t.Fail != 0 || t.B.ReadErr != 0 || t.B.WriteErr != 0 {
 			return false
+		}
+		if t.B.Cut != "" {
+			return t.Status >= 200 && t.Status != 204 && t.Status != 304 && t.B.Body != ""
 		}
 		if t.Status < 200 || t.Status == 204 || t.Status == 304 {
 			return t.Status >= 200 && t.B.Body == ""
